@@ -148,6 +148,9 @@ func (fr *Frame) checkAsserts(name string, st *State, reach *Term) {
 		}
 		env := fr.envAt(nil, st, nil)
 		env.old = fr.c.entry
+		env.frame = fr
+		env.blk = fr.curBlock
+		env.atEnd = true
 		g, err := env.evalBool(cl.Expr)
 		if err != nil {
 			fr.unsupported(0, "assert %s: %v", cl.Text, err)
@@ -167,7 +170,7 @@ func (fr *Frame) inline(instr ssa.Instruction, callee *ssa.Function, bind, args 
 	c.depth++
 	defer func() { c.depth-- }()
 	sub := &Frame{c: c, fn: callee, id: fr.id + "/" + fr.posShort(instr.Pos()), params: args, free: bind}
-	if bc := c.V.contractForFn(callee); bc != nil {
+	if bc := c.V.contractForFn(callee); bc != nil && callee.Pkg != nil {
 		sub.contract = bc.C
 		env := newEnv(c, callee.Pkg.Pkg)
 		env.old = st.clone()
@@ -266,18 +269,14 @@ func withType(v *Val, t types.Type) *Val {
 		return nil
 	}
 	n := *v
-	// keep the static type of the declaration unless the value has none
-	if t != nil {
-		if _, isIface := t.Underlying().(*types.Interface); !isIface || n.Typ == nil {
-			n.Typ = t
-		} else if n.Typ != nil {
-			if _, vi := n.Typ.Underlying().(*types.Interface); vi {
-				n.Typ = t
-			} else {
-				n.Typ = t
-			}
-		}
+	if t == nil {
+		return &n
 	}
+	// keep a more specific static interface type of the value (e.g. DeviceRequester passed as Requester)
+	if n.Typ != nil && types.IsInterface(n.Typ) && types.IsInterface(t) && types.AssignableTo(n.Typ, t) {
+		return &n
+	}
+	n.Typ = t
 	return &n
 }
 
